@@ -215,6 +215,29 @@ def scripts(ctx, tier):
         for (n, sig) in ((25, 1), (60, 0), (8, 6), (30, 0), (4, 1)):
             lines += ["E %d 4000 %d %d" % (fr, sig, rng.randrange(3)) for _ in range(n)]
         ms.append(lines)
+    # 5c. multi-frame packets inside multistream packets with per-frame sizes around 252 bytes (where the frame-length and
+    #     self-delimiting length fields change from one to two bytes): 40..120 ms, variable rate, loud non-stationary input,
+    #     total bitrate swept finely so that each stream's 20 ms frames cross 252 bytes (about 100..105 kb/s per stream)
+    #     (complexity >= 8: below that the variable-rate frames all sit at their cap and are equal)
+    lay252 = [("mse", 4, 2, 2), ("penc", 4, 3, 2), ("mse", 2, 2, 0), ("surr", 4, 1, 2), ("mse", 3, 2, 1), ("mse", 6, 3, 3), ("surr", 6, 1, 4), ("penc", 9, 3, 5)]
+    for k in range(6 if tier == "quick" else 48):
+        t, nch, a3, a4 = lay252[k % len(lay252)]
+        fs = 48000
+        hdr = "N mse %d %d %d %d %d %d" % (fs, nch, a3, a4, 2049, rng.randrange(1, 1 << 30)) if t == "mse" else \
+              "N %s %d %d %d %d %d" % (t, fs, nch, a3, 2049, rng.randrange(1, 1 << 30))
+        lines = [hdr + " | %d %d" % (fs, rng.randrange(3))]
+        lines += ["S 4006 1", "S 4020 %d" % (0 if k < 6 else rng.choice([0, 0, 1])), "S 4010 %d" % rng.choice([8, 9, 10])]
+        if k >= 6 and rng.random() < 0.3:
+            lines.append("S 11002 %d" % rng.choice([1001, 1002]))
+        u = [24, 24, 16, 32, 48, 24][k % 6] if k < 6 else rng.choice([16, 24, 24, 32, 40, 48])
+        per = a3 if t == "mse" else (a4 - 1 if nch == 6 else a4)                          # streams that share the bulk of the rate
+        lo, hi, step = 92000 * per, 116000 * per, (1000 if tier == "quick" else 500) * per
+        off = rng.randrange(0, step)
+        for br in range(lo + off, hi, step):
+            lines.append("S 4002 %d" % br)
+            for _ in range(2):
+                lines.append("E %d 6000 13 %d" % (u * (fs // 400), rng.randrange(3)))
+        ms.append(lines)
     sweeps = [("surr", 2, 255, 2), ("surr", 3, 1, 2), ("surr", 6, 1, 4), ("penc", 4, 3, 2)]
     for k in range(4 if tier == "quick" else 16):
         t, nch, fam, S = sweeps[k % 4]
